@@ -25,6 +25,47 @@ if REPO not in sys.path:
     sys.path.insert(0, REPO)
 
 
+def poison_uninitialised_memory():
+    """`np.empty` / `np.empty_like` promise nothing about the contents of what they return; on a quiet heap fresh pages happen to be
+    zero, which hides a routine that reads (or returns) entries it never wrote.  In the harness process every such array is handed out
+    filled with NaN (floats, complex), a large odd value (integers) or True (bool): a legal behaviour of numpy under which a result that
+    depends on uninitialised memory is wrong deterministically instead of occasionally.  PMS_NO_POISON=1 switches it off."""
+    if os.environ.get("PMS_NO_POISON") == "1":
+        return
+    import numpy as np
+    if getattr(np, "_pms_poisoned", False):
+        return
+    _empty, _empty_like = np.empty, np.empty_like
+
+    def fill(a):
+        try:
+            if isinstance(a, np.ndarray) and a.size:
+                k = a.dtype.kind
+                if k == "f":
+                    a.fill(np.nan)
+                elif k == "c":
+                    a.fill(complex(np.nan, np.nan))
+                elif k in "iu":
+                    a.fill(np.iinfo(a.dtype).max // 3)
+                elif k == "b":
+                    a.fill(True)
+        except Exception:      # noqa: BLE001 — exotic dtypes are left as numpy returned them
+            pass
+        return a
+
+    def empty(*a, **k):
+        return fill(_empty(*a, **k))
+
+    def empty_like(*a, **k):
+        return fill(_empty_like(*a, **k))
+    empty.__doc__, empty_like.__doc__ = _empty.__doc__, _empty_like.__doc__
+    np.empty, np.empty_like = empty, empty_like
+    np._pms_poisoned = True
+
+
+poison_uninitialised_memory()
+
+
 class Infra(Exception):
     """infrastructure trouble: exit 2, never a VIOLATION"""
 
@@ -582,7 +623,14 @@ def main(spec, argv):
             broken += leanchecker_stage(run, spec)
         corr_broken = []
         if st["driver_ok"]:
-            corr_broken = spec.correspond(run) or []
+            try:
+                corr_broken = spec.correspond(run) or []
+            except Infra:
+                raise
+            except Exception as e:      # the harness could not evaluate the tree (e.g. an unexpected shape or type came back)
+                import traceback
+                corr_broken = [{"kind": "correspondence", "name": f"correspondence-raised:{type(e).__name__}",
+                                "detail": traceback.format_exc()[-900:], "cases": []}]
         else:
             corr_broken = [{"kind": "correspondence", "name": "driver-unavailable", "detail": "model driver could not be built", "cases": []}]
         broken += corr_broken
@@ -590,7 +638,14 @@ def main(spec, argv):
         if broken:
             # the search compares the REAL code with the Spec / monitors and registers violations that
             # come with a concrete failing input; it returns the broken items it could not explain
-            unexplained = spec.search(run, broken)
+            try:
+                unexplained = spec.search(run, broken)
+            except Infra:
+                raise
+            except Exception as e:      # e.g. a failure that does not reproduce when the search evaluates the same input again
+                import traceback
+                run.notes = getattr(run, "notes", []) + [f"search raised {type(e).__name__}: " + traceback.format_exc()[-600:]]
+                unexplained = list(broken)
             if unexplained and any(not v["no_input"] for v in run.violations):
                 # a failing input was found on the real code: the obligations that no longer check are part of the same report
                 # (listed in the evidence and below the VIOLATION lines), not a second violation "without failing input"
